@@ -217,6 +217,37 @@ def run(ctx, report):
                 R.nontrivial.add(inst.key())
             if ok and len(R3.samples) < 4 and isinstance(res, list) and res:
                 R3.samples.append('%s %s: %s' % (inst.name, inst.form, show(res[-1])[:140]))
+    # operand pairs the form model does not produce: the two byte parts of one register, in both orders (xchg / xadd / cmpxchg merge their two writes)
+    from ..lifter import TId, TSlice, InfoObj
+
+    class _Probe(object):
+        def __init__(self, name, form, func):
+            self.name, self.form, self.func = name, form, func
+
+        def key(self):
+            return '%s[%s]' % (self.name, self.form)
+    for rname in ('eax', 'ebx'):
+        reg = TId(rname, 32, is_reg=True)
+        lo, hi = TSlice(reg, 0, 8), TSlice(reg, 8, 16)
+        for mn in ('xchg', 'xadd', 'cmpxchg'):
+            f = L.mnemo_func.get(mn)
+            if f is None:
+                continue
+            for tag, ops in (('%sl, %sh' % (rname[1], rname[1]), [lo, hi]), ('%sh, %sl' % (rname[1], rname[1]), [hi, lo])):
+                probe = _Probe(mn, 'parts %s' % tag, f)
+                try:
+                    results = L.I.run(f, [InfoObj('u32', 'u32')] + ops)
+                except LiftUnknown as e:
+                    raise AnalysisError('%s is outside the modelled subset on %s: %s' % (mn, tag, e))
+                for dec, res in results:
+                    if isinstance(res, LiftError):
+                        R1.violation(probe.key(), '%s:%s:parts' % (mn, res.exc), 'lifting %s %s raises %s: %s' % (mn, tag, res.exc, res.msg[:160]), where(sem, f.node))
+                        continue
+                    R1.ok(probe.key())
+                    check_template(R2, R3, R4, sem, probe, res)
+                    for R in (R2, R3, R4):
+                        R.instances += 1
+                        R.nontrivial.add(probe.key())
     if unknowns:
         raise AnalysisError('%d lifter instantiations are outside the modelled subset, e.g. %s' % (len(unknowns), unknowns[:3]))
     # ---------------------------------------------------------------- D5 sub-register rewrite
@@ -322,4 +353,6 @@ MUTANTS = [
     ('sidt-const32', 'miasmx/arch/ia32_sem.py', "ExprInt16(0x8245)))", "ExprInt32(0x8245)))", 'C11.D3'),
     ('into-shared-empty-list', 'miasmx/arch/ia32_sem.py', "def into(info):\n    return []\n", "no_effect = []\ndef into(info):\n    return no_effect\n", 'C11.D6'),
     ('mmx-scale-typed-by-admode', 'miasmx/arch/ia32_sem.py', "        int_cast = tab_afs_int[[x86_afs.u32, x86_afs.u16][admode == x86_afs.u16]]", "        int_cast = tab_afs_int[admode]", 'C11.D3'),
+    ('aff-pair-unordered-slice', 'miasmx/arch/ia32_sem.py', "        return [ExprAff(ExprSlice(a.arg, lo.start, hi.stop),", "        return [ExprAff(ExprSlice(a.arg, a.start, b.stop),", 'C11.D3'),
+    ('cmpxchg-acc-dest-two-writes', 'miasmx/arch/ia32_sem.py', "    if a == c:\n", "    if False:\n", 'C11.D4'),
 ]
